@@ -1,5 +1,6 @@
 import Zed.Model.VngSexp
 import Zed.Model.VecOps
+import Zed.Model.VecExpr
 /-!
   Driver glue for C09.
   fcol = `(col <type> <value>…)` | `(missing n)`;  an object = `(obj fcol…)` (its top-level
@@ -8,6 +9,11 @@ import Zed.Model.VecOps
   `(C09 sum (vals (hex int)…) obj…)`      → `ok <int64>` | `panic <message>`
   `(C09 kinds obj…)`                      → the vector each column is loaded as
   `(C09 facts)`                           → what the vector compiler accepts (generated tables)
+  `(C09 vexpr <batch> (ops op…))`         → the vector runtime's output for the pipeline: `ok out…` | `panic msg`
+  `(C09 sexpr <batch> (ops op…))`         → the sequential runtime's output
+    batch = `(batch n (col hexname int|str|bool|other v…)…)`, v = integer / hex / t / f / n (null)
+    expr = `(f hexname)` `(i k)` `(s hex)` `(ar add|sub|mul|div|mod x y)` `(cmp eq|ne|lt|le|gt|ge x y)` `(and x y)` `(or x y)` `(not x)`
+    op = `(yield e)` `(where e)` `(head n)` `(tail n)`;  out = `(v i k)` `(v s hex)` `(v b 0|1)` `(v n)` `(v e msg)` `(v o)` `(r k)`
 -/
 namespace Zed.Drv.C09
 open Zed Zed.Vng Zed.Vec
@@ -50,6 +56,78 @@ def facts : String :=
   " ".intercalate [l "leaf" vamLeafOps, l "nonleaf" vamNonLeafOps, l "expr" vamExprKinds,
     l "binop" vamBinaryOps, l "unop" vamUnaryOps]
 
+namespace X
+open Zed.VExpr
+
+def optOf (f : String → Option α) : Sexp → Option (Option α)
+  | .atom "n" => some none
+  | .atom a => (f a).map some
+  | _ => none
+
+def colOf : Sexp → Option (VExpr.Bytes × VExpr.Col)
+  | .list (.atom "col" :: .atom name :: .atom "int" :: vs) => do
+    pure ((← Sexp.bytesOfHex name), .int (← vs.mapM (optOf String.toInt?)))
+  | .list (.atom "col" :: .atom name :: .atom "str" :: vs) => do
+    pure ((← Sexp.bytesOfHex name), .str (← vs.mapM (optOf Sexp.bytesOfHex)))
+  | .list (.atom "col" :: .atom name :: .atom "bool" :: vs) => do
+    pure ((← Sexp.bytesOfHex name), .bool (← vs.mapM (optOf fun | "t" => some true | "f" => some false | _ => none)))
+  | .list [.atom "col", .atom name, .atom "other", .atom n] => do
+    pure ((← Sexp.bytesOfHex name), .other (← n.toNat?))
+  | _ => none
+
+def batchOf : Sexp → Option Batch
+  | .list (.atom "batch" :: .atom n :: cols) => do pure { n := (← n.toNat?), cols := (← cols.mapM colOf) }
+  | _ => none
+
+def arOf : String → Option ArOp
+  | "add" => some .add | "sub" => some .sub | "mul" => some .mul | "div" => some .div | "mod" => some .mod | _ => none
+
+def cmpOf : String → Option CmpOp
+  | "eq" => some .eq | "ne" => some .ne | "lt" => some .lt | "le" => some .le | "gt" => some .gt | "ge" => some .ge | _ => none
+
+partial def exprOf : Sexp → Option Expr
+  | .list [.atom "f", .atom name] => do pure (.field (← Sexp.bytesOfHex name))
+  | .list [.atom "i", .atom k] => do pure (.litInt (← k.toInt?))
+  | .list [.atom "s", .atom h] => do pure (.litStr (← Sexp.bytesOfHex h))
+  | .list [.atom "ar", .atom o, x, y] => do pure (.arith (← arOf o) (← exprOf x) (← exprOf y))
+  | .list [.atom "cmp", .atom o, x, y] => do pure (.cmp (← cmpOf o) (← exprOf x) (← exprOf y))
+  | .list [.atom "and", x, y] => do pure (.and (← exprOf x) (← exprOf y))
+  | .list [.atom "or", x, y] => do pure (.or (← exprOf x) (← exprOf y))
+  | .list [.atom "not", x] => do pure (.not (← exprOf x))
+  | _ => none
+
+def opOf : Sexp → Option Op
+  | .list [.atom "yield", e] => do pure (.yieldE (← exprOf e))
+  | .list [.atom "where", e] => do pure (.filter (← exprOf e))
+  | .list [.atom "head", .atom n] => do pure (.head (← n.toNat?))
+  | .list [.atom "tail", .atom n] => do pure (.tail (← n.toNat?))
+  | _ => none
+
+def svStr : SV → String
+  | .int i => "(v i " ++ toString i ++ ")"
+  | .str s => "(v s " ++ Sexp.hexOfBytes s ++ ")"
+  | .bool b => "(v b " ++ (if b then "1" else "0") ++ ")"
+  | .null _ => "(v n)"
+  | .err m => "(v e " ++ (m.map fun c => if c == ' ' || c == '(' || c == ')' then '_' else c) ++ ")"
+  | .other => "(v o)"
+
+def outStr : Out → String
+  | .val v => svStr v
+  | .row k => "(r " ++ toString k ++ ")"
+
+def run (vector : Bool) : Sexp → Sexp → String
+  | b, .list (.atom "ops" :: ops) =>
+    match batchOf b, ops.mapM opOf with
+    | some b, some ops =>
+      if vector then
+        match runV ops { batch := b } with
+        | .error p => "panic " ++ clean p
+        | .ok outs => "ok " ++ " ".intercalate (outs.map outStr)
+      else "ok " ++ " ".intercalate ((runS b ops (List.range b.n)).map outStr)
+    | _, _ => "bad-op"
+  | _, _ => "bad-op"
+end X
+
 def handle : List Sexp → String
   | .atom "countby" :: objs =>
     match objs.mapM objOf with
@@ -70,6 +148,8 @@ def handle : List Sexp → String
     | none => "bad-op"
     | some os => " ".intercalate ((os.flatten.map fieldVec).map fvecStr)
   | [.atom "facts"] => facts
+  | [.atom "vexpr", b, ops] => X.run true b ops
+  | [.atom "sexpr", b, ops] => X.run false b ops
   | _ => "bad-op"
 
 end Zed.Drv.C09
